@@ -940,3 +940,116 @@ def basekey_accessor_verdicts(eng) -> Optional[List[Tuple[str, str]]]:
     finally:
         sided = F.one_sided()
     return None if sided else problems
+
+
+def syntax_dispatch(ctx, rule: str, general: str, flattened: str, member: str, minimum: int = 1) -> None:
+    """A JSON serialization is the GENERAL syntax exactly when it carries the array member (`signatures` / `recipients`): every function that reaches
+    both the general and the flattened reader decides between them by the presence of that member - the general reader on the arm where it is
+    present, the flattened reader on the arm where it is absent.  (A test on another member - the flattened syntax's own `signature`, say - agrees
+    for well-formed input and lets a crafted object that carries both be read as flattened: the array, empty or forged, is then never looked at.)"""
+    eng = ctx.eng
+    P = eng.prog
+    g, f = P.func(general), P.func(flattened)
+    n = 0
+    for fn in P.all_functions():
+        sites = [s for s in eng.cg.calls_in(fn) if isinstance(s.node, ast.Call)]
+        gs = [s for s in sites if g in s.callees]
+        fs = [s for s in sites if f in s.callees]
+        if not gs or not fs:
+            continue
+        n += 1
+        cfg = cfg_of(fn)
+        tests = []
+        for t in cfg.nodes:
+            if t.kind == "test" and isinstance(t.ast, ast.Compare) and len(t.ast.ops) == 1 and isinstance(t.ast.ops[0], (ast.In, ast.NotIn)) and const_value(t.ast.left) == member:
+                tests.append((t, "true" if isinstance(t.ast.ops[0], ast.In) else "false"))
+        ok = bool(tests)
+        why = "no test of the array member decides between the two readers"
+        if ok:
+            for s_, want_present in [(x, True) for x in gs] + [(x, False) for x in fs]:
+                cn = cfg.node_of(s_.node)
+                if cn is None:
+                    ok, why = False, "a reader call outside the flow graph"
+                    break
+                # reachable only through the wanted arm of some such test
+                good = False
+                for t, present_label in tests:
+                    reach_without_wanted = cfg.reachable(cfg.entry, edge_filter=lambda a, b, lab, _t=t, _w=(present_label if want_present else ("false" if present_label == "true" else "true")): not (a is _t and lab == _w))
+                    if cn not in reach_without_wanted:
+                        good = True
+                if not good:
+                    ok = False
+                    why = f"the {'general' if want_present else 'flattened'} reader is reached on a path that did not establish that `{member}` is {'present' if want_present else 'absent'}"
+                    break
+        ctx.check(ok, rule, fn, (gs + fs)[0].node, f"{fn.short} :: general / flattened dispatch", f"{fn.short} does not choose the general syntax exactly when `{member}` is present: {why}",
+                  f"if '{member}' in value: general else: flattened", construct=f"syntax dispatch in {fn.short}")
+    ctx.count(rule, n, minimum, "functions that choose between the general and the flattened reader")
+
+
+def ignored_parameters(ctx, rule: str, select, minimum: int = 1) -> None:
+    """A parameter that a function accepts and never reads is an argument the caller gave in vain (a size, a curve, a flag dropped while a call was
+    re-spelled).  Every parameter of the selected functions is read somewhere in the body - except those the reference tree already ignores
+    (abstract methods, protocol stubs: jv/spec/reference_unused_params.txt, keyed by position so that a rename is not news)."""
+    import os
+    eng = ctx.eng
+    table = set()
+    path = os.path.join(os.path.dirname(os.path.dirname(os.path.abspath(__file__))), "spec", "reference_unused_params.txt")
+    with open(path) as fh:
+        for line in fh:
+            if line.startswith("#") or not line.strip():
+                continue
+            q, i, _nm = line.rstrip("\n").split("\t")
+            table.add((q, int(i)))
+    n = 0
+    for fn in eng.prog.all_functions():
+        if fn.name == "<module>" or not isinstance(fn.node, (ast.FunctionDef, ast.AsyncFunctionDef)) or not select(fn):
+            continue
+        if any(ast.unparse(d_).endswith("overload") for d_ in fn.node.decorator_list):
+            continue
+        a = fn.node.args
+        ps = [x.arg for x in a.posonlyargs + a.args + a.kwonlyargs] + ([a.vararg.arg] if a.vararg else []) + ([a.kwarg.arg] if a.kwarg else [])
+        used = {x.id for b in fn.node.body for x in ast.walk(b) if isinstance(x, ast.Name)}
+        body = [b for b in fn.node.body if not (isinstance(b, ast.Expr) and isinstance(b.value, ast.Constant))]
+        stub = not body or all(isinstance(b, (ast.Pass, ast.Raise)) or (isinstance(b, ast.Expr) and isinstance(b.value, ast.Constant)) for b in body)
+        for i, p_ in enumerate(ps):
+            if i == 0 and fn.cls is not None and p_ in ("self", "cls"):
+                continue
+            n += 1
+            if p_ in used or stub or p_.startswith("_"):
+                continue
+            ctx.check((fn.short, i) in table, rule, fn, fn.node, f"{fn.short} :: parameter {p_}", f"{fn.short} accepts `{p_}` and never reads it: what the caller asked for is ignored "
+                      "(the callee's default applies instead)", "every parameter is read or handed on", construct=f"parameter {p_} of {fn.short} ignored")
+    ctx.count(rule, n, minimum, "parameters of the selected functions")
+
+
+def every_recipient_tried(ctx, rule: str) -> None:
+    """"every JWE that implementation produces ... decrypts": with verify_all_recipients off, a recipient entry that this key cannot open is skipped and
+    the NEXT one is tried.  Walking outwards from the `decrypt_recipient` call, a `try` whose handler can complete normally (the tolerance) is met
+    before the recipients loop - a handler outside the loop ends the search at the first entry that fails."""
+    eng = ctx.eng
+    P = eng.prog
+    dr = P.func("rfc7516.message:decrypt_recipient")
+    n = 0
+    for fn in P.all_functions():
+        for s_ in eng.cg.calls_in(fn):
+            if not (isinstance(s_.node, ast.Call) and dr in s_.callees):
+                continue
+            # ancestors of the call, innermost first
+            chain = []
+            x = P.parent(s_.node)
+            while x is not None and x is not fn.node:
+                chain.append(x)
+                x = P.parent(x)
+            loops = [i for i, a in enumerate(chain) if isinstance(a, (ast.For, ast.While))]
+            if not loops:
+                continue
+            n += 1
+            li = loops[0]
+
+            def tolerant(t: ast.Try) -> bool:
+                return any(not (h.body and isinstance(h.body[-1], ast.Raise)) for h in t.handlers)
+            outer = [a for a in chain[li + 1:] if isinstance(a, ast.Try) and tolerant(a) and any(chain[li] is b_ or any(chain[li] is y for y in ast.walk(b_)) for b_ in a.body)]
+            ctx.check(not outer, rule, fn, s_.node, f"{fn.short} :: recipients loop", "a handler that tolerates a failing recipient stands outside the recipients loop: the first entry that cannot "
+                      "be opened ends the search and later recipients (the caller's own, perhaps) are never tried", "try / except inside the loop body",
+                      construct=f"recipient tolerance outside the loop in {fn.short}")
+    ctx.count(rule, n, 1, "decrypt_recipient calls inside a recipients loop")
